@@ -83,6 +83,26 @@ def rule_reg(ctx, rep):
         rep.must_pass("C15.qsbr", "register.linked≺online", r, [r.entry()], on, lambda i: i in adds, include_start=True, what="thread is linked into the registry before it goes online")
 
 
+def rule_bp_owner(ctx, rep, rid="C15.bpowner"):
+    """bp: a slot records its owner (tid = pthread_self()) before it becomes visible on the registry; the fork child keeps exactly
+    the slot whose tid is its own and prunes the others, thread exit finds its slot through the TLS pointer set here."""
+    pm = ctx.mod("bp", "perfn")
+    at = pm.fn("add_thread")
+    if at is None:
+        raise Broken("bp: add_thread vanished")
+    rep.touch(at)
+    tid = [s_ for s_ in pat.stores(at, "urcu_bp_reader.tid") if (lambda e: e[0] == "call" and e[1] == "pthread_self")(ir.expr(at, s_.args[0], 3))]
+    link = [i for i in at.all_insts() if (i.op == "call" and i.callee in ("cds_list_add", "cds_list_add_tail")) or (i.op == "store" and pat.from_fn_opt(i, "cds_list_add"))]
+    tls = [s_ for s_ in at.all_insts() if s_.op == "store" and s_.d["ap"] and "urcu_bp_reader" in ir.ap_str(at, s_.d["ap"]) and ir.ap_str(at, s_.d["ap"]).startswith(("tls:", "@urcu_bp_reader"))]
+    key = pat.calls(at, "pthread_setspecific")
+    pat.require(link, "add_thread: registry link")
+    if not tid:
+        rep.bad(rid, "add_thread.tid", "a registered slot never records its owner's thread id: after fork() the child cannot tell its own slot from the others (it prunes its own reader state)", [at.name])
+    else:
+        rep.must_pass(rid, "add_thread.tid≺link", at, [at.entry()], link, lambda i: i in tid, include_start=True, what="tid = pthread_self() is stored before the slot is linked into the registry")
+    rep.check(bool(key), rid, "add_thread.key", "the slot is bound to the thread-exit key (destructor finds it)", "add_thread does not bind the slot to the exit key: a thread that exits leaves its slot allocated for ever", [at.name])
+
+
 def rule_arena(ctx, rep):
     m = ctx.mod("bp", "flat")
     pm = ctx.mod("bp", "perfn")
@@ -117,6 +137,33 @@ def rule_arena(ctx, rep):
                       "in-place growth zeroes [%s, +%s) instead of [old size, new size): %s" % (ir.expr_str(off) if off is not None else "?", ir.expr_str(ln),
                       "live reader slots of registered threads are wiped (their nesting count / alloc flag reads 0: grace periods stop waiting for them, slots are handed out twice)"
                       if not ok_off else "slots appended by the growth keep stale bytes / live slots are wiped"), [i.where()])
+        # the chunk grows: new size - old size is a positive multiple of the capacity
+        diff = linear.sub(linear.norm(new_sz) or {}, linear.norm(old_sz) or {})
+        grows = bool(diff) and all(c_ > 0 for c_ in diff.values()) and all(isinstance(t_, tuple) and t_[0] == "ld" and t_[1].endswith("registry_chunk.capacity") for t_ in diff)
+        rep.check(grows, "C15.arena", "expand.grows", "the in-place remap enlarges the chunk (new - old = %s)" % linear.show(diff),
+                  "the in-place remap does not enlarge the chunk (new size - old size = %s): registered readers' slots beyond the new end are unmapped / no slot is gained" % linear.show(diff), [c.where()])
+    # every chunk handed to the arena has its capacity recorded before it becomes reachable, and the capacity matches its size
+    adds = [i for i in ex.all_insts() if (i.op == "store" and pat.from_fn_opt(i, "cds_list_add_tail")) or (i.op == "call" and i.callee in ("cds_list_add_tail", "cds_list_add"))]
+    caps = [s_ for s_ in pat.stores(ex, "registry_chunk.capacity")]
+    mm_new = [c_ for c_ in ex.calls("mmap")]
+    pat.require(adds and caps and mm_new, "expand_arena: new-chunk anatomy")
+    for c_ in mm_new:
+        mine = [s_ for s_ in caps if ir.ap_str(ex, s_.d["ap"]).startswith("mmap()#%d." % c_.id)]
+        my_adds = [a_ for a_ in adds if ex.reach([c_], [a_])[0] is not None and ex.reach([c_], [a_], avoid=lambda i: i.op == "call" and i.callee == "mmap" and i is not c_)[0] is not None]
+        if not mine:
+            rep.bad("C15.arena", "expand.capacity-set@%d" % c_.line, "a freshly mapped chunk is linked into the arena without its capacity being recorded (capacity 0: the chunk is always `full`, every registration expands again)", [c_.where()])
+            continue
+        rep.must_pass("C15.arena", "expand.capacity-set@%d" % c_.line, ex, [c_], my_adds, lambda i: i in mine, what="capacity is stored before the new chunk is linked into chunk_list")
+        # capacity * sizeof(reader) + header == mapped size
+        sz = linear.norm(ir.expr(ex, c_.args[1], 8))
+        cap = linear.norm(ir.expr(ex, mine[0].args[0], 8))
+        rd = pm.structs.get("urcu_bp_reader")
+        if sz is not None and cap is not None and rd:
+            want = {t_: c2 * rd["size"] for t_, c2 in cap.items()}
+            d2 = linear.sub(sz, want)
+            okc = set(d2) <= {1} and 0 <= d2.get(1, 0) <= 4096
+            rep.check(okc, "C15.arena", "expand.capacity=size@%d" % c_.line, "recorded capacity times the slot size plus the chunk header is the mapped size",
+                      "recorded capacity (%s slots of %d bytes) does not match the mapped size %s: arena_alloc hands out slots beyond the mapping" % (linear.show(cap), rd["size"], linear.show(sz)), [mine[0].where()])
     w = pm.fn("mremap_wrapper")
     if w is not None:
         for c in pat.calls(w, "mremap"):
@@ -304,6 +351,7 @@ def rule_findchunk(ctx, rep):
 
 RULES = [
     ("C15.listops", rule_listops),
+    ("C15.bpowner", rule_bp_owner),
     ("C15.lockset", rule_lockset),
     ("C15.reg", rule_reg),
     ("C15.arena", rule_arena),
